@@ -26,6 +26,8 @@ gen("C05", [
  ("c05-exit-in-handler", "B", "C05.M9", None, [(S, "\t\t/* Error */\n\t\twarn(\"read dns\");", "\t\t/* Error */\n\t\terr(1, \"read dns\");", 1)]),
  ("c05-cmc-full-capacity", "B", "C05.M3c", "save_to_qmem_pingordata", [(S, "\t\tsize_t cmcsize = sizeof(cmc) - 1;", "\t\tsize_t cmcsize = sizeof(cmc);", 1)], "the repaired F14"),
  ("c05-txtbuf-small", "B", "C05.M3c", "write_dns", [(S, "\t\tchar txtbuf[64*1024];\n\t\tsize_t space = sizeof(txtbuf) - 1;;", "\t\tchar txtbuf[4*1024];\n\t\tsize_t space = sizeof(txtbuf) - 1;;", 1)], "4096 payload bytes need 6554 characters"),
+ ("c05-outq-cursor-wrap", "B", "C05.M4l", None, [(S, "\tuse++;\n\tif (use >= OUTPACKETQ_LEN)\n\t\tuse = 0;", "\tuse++;\n\tif (use > OUTPACKETQ_LEN)\n\t\tuse = 0;", 1)], "read of outpacketq[4]"),
+ ("c05-dnscache-scan-5", "B", "C05.M4l", "answer_from_dnscache", [(S, "\tfor (i = 0; i < DNSCACHE_LEN ; i++) {\n\t\t/* Try cache most-recent-first */", "\tfor (i = 0; i <= DNSCACHE_LEN + 1 ; i++) {\n\t\t/* Try cache most-recent-first */", 1)]),
  ("c05-readname-depth", "B", "C05.M8", "readname_loop", [(R, "d, length - len, loop - 1);", "d, length - len, loop);", 1)], "compression loops recurse without end"),
  ("c05-mx-no-progress", "B", "C05.M8", "write_dns", [(S, "\t\t\tif (res < 1) {\n\t\t\t\t/* nothing encoded */", "\t\t\tif (res < 0) {\n\t\t\t\t/* nothing encoded */", 1)]),
  ("c05-qmem-scan-step", "B", "C05.M8", "answer_from_qmem", [(S, "\tfor (i = 0; i < qmem_len ; i++) {", "\tfor (i = 0; i < qmem_len ; i += qmem_type[0]) {", 1)], "step can be 0"),
@@ -44,6 +46,8 @@ gen("C06", [
  ("c06-raw-send-full", "B", "C06.M3", "send_raw", [(K, "\tlen = MIN(sizeof(packet) - RAW_HDR_LEN, buflen);\n\n\tmemcpy(packet, raw_header, RAW_HDR_LEN);\n\tif (len) {\n\t\tmemcpy(&packet[RAW_HDR_LEN], buf, len);\n\t}\n\n\tlen += RAW_HDR_LEN;\n\tpacket[RAW_HDR_CMD] = cmd | (userid & 0x0F);", "\tlen = MIN(sizeof(packet), buflen);\n\n\tmemcpy(packet, raw_header, RAW_HDR_LEN);\n\tif (len) {\n\t\tmemcpy(&packet[RAW_HDR_LEN], buf, len);\n\t}\n\n\tlen += RAW_HDR_LEN;\n\tpacket[RAW_HDR_CMD] = cmd | (userid & 0x0F);", 1)]),
  ("c06-name-table-index", "B", "C06.M4r", "dns_decode", [(D, "\t\t\t\t    pref < 2500) {", "\t\t\t\t    pref <= 2500) {", 1)]),
  ("c06-rev64-int", "B", "C06.M1", "base64_decode", [("base64.c", "#define REV64(x) rev64[(unsigned char) (x)]", "#define REV64(x) rev64[(int) (x)]", 1)]),
+ ("c06-enctest-compare-long", "B", "C06.M4l", "handshake_upenctest", [(K, "\t\tif (read > 0 && read < slen + 4)\n\t\t\treturn 0;\t/* reply too short (chars dropped) */", "\t\tif (read > 0 && read < 4)\n\t\t\treturn 0;\t/* reply too short (chars dropped) */", 1)], "in[k+4] read beyond the reply... and beyond the buffer for long patterns"),
+ ("c06-hex-nomask", "B", "C06.M4l", "handshake_version", [(K, "hex[userid & 15]", "hex[userid]", 1)]),
  ("c06-probe-range-stuck", "B", "C06.M8", "handshake_autoprobe_fragsize", [(K, "\t\trange >>= 1;", "\t\trange >>= 0;", 1)]),
  ("c06-lazyoff-rearm", "B", "C06.M8", None, [(K, "\t\tif (read == 9 && strncmp(\"Immediate\", in, 9) == 0) {\n\t\t\twarnx(\"Server switched back to legacy mode.\\n\");\n\t\t\tlazymode = 0;", "\t\tif (read == 9 && strncmp(\"Immediate\", in, 9) == 0) {\n\t\t\twarnx(\"Server switched back to legacy mode.\\n\");\n\t\t\tlazymode = 1;", 1)], "the flag that cuts the send_query cycle is set again below it"),
  ("c06-n-waitdns-sizeof", "N", None, None, [(K, "\t\tread = handshake_waitdns(dns_fd, in, sizeof(in), 'l', 'L', i+1);", "\t\tread = handshake_waitdns(dns_fd, in, sizeof(in) - 0, 'l', 'L', i+1);", 1)]),
